@@ -68,10 +68,19 @@ def run(chk):
     for wi in range(nworlds):
         sph = rng.random() < 0.35
         mode = rng.choice(["random", "random", "affine", "zero", "corner"])
+        dense = wi % 5 == 3
+        if dense:
+            # many value points, half of them nearly collinear (thin triangles), on a footprint across the date line: the search
+            # for the triangle of a point goes beyond the triangle of the nearest centroid, for both copies of the longitude
+            sph, mode = True, "affine"
         if sph:
             cx, cy = rng.choice([(g.num(-150, 150, 1), g.num(-60, 60, 1)), (0.0, 0.0),
                                  (rng.choice([-1, 1]) * g.num(172, 188, 1), g.num(-50, 50, 1))])    # the last: across the date line
+            if dense:
+                cx, cy = rng.choice([-1, 1]) * g.num(174, 186, 1), g.num(-40, 40, 1)
             poly = g.polygon(cx, cy, g.num(3, 20, 1))
+            if dense:
+                poly = g.polygon(cx, cy, g.num(12, 20, 1), n=rng.randint(5, 8))
         else:
             cx, cy = rng.choice([(g.num(-3e5, 3e5, 0), g.num(-3e5, 3e5, 0)), (0.0, 0.0)])
             poly = g.polygon(cx, cy, g.num(5e4, 4e5, 0))
@@ -89,6 +98,12 @@ def run(chk):
             affine = (A, B, C)
             fval = lambda p: A * p[0] + B * p[1] + C
             pts = [list(c) for c in poly] + [g.interior_point(poly) for _ in range(rng.randint(1, 5))]
+            if dense:
+                a0, a1 = g.interior_point(poly), g.interior_point(poly)
+                for k in range(rng.randint(6, 10)):
+                    tt = (k + 0.5) / 10.0
+                    pts.append([round(a0[0] + tt * (a1[0] - a0[0]) + rng.uniform(-0.02, 0.02), 3), round(a0[1] + tt * (a1[1] - a0[1]) + rng.uniform(-0.02, 0.02), 3)])
+                pts += [g.interior_point(poly) for _ in range(rng.randint(4, 8))]
             entries = [[round(fval(p), 6), [p]] for p in pts]
             rng.shuffle(entries)
         elif mode == "corner":
@@ -145,12 +160,13 @@ def run(chk):
         plan.append(("merge", im, s, wj))
         # query points: listed points, corners, random interior points
         qs = [conv(sph, p) for p, _ in listed] + list(cn)
-        for _ in range(12):
+        nq = 40 if dense else 12
+        for _ in range(nq):
             ip = g.interior_point(poly)
             qs.append(conv(sph, ip) if sph else (float(ip[0]), float(ip[1])))
         if sph:
             # the same points written on the other 360-degree branch of the longitude
-            qs += [((q[0] - 2 * PI) if q[0] > 0 else (q[0] + 2 * PI), q[1]) for q in qs[-12:]]
+            qs += [((q[0] - 2 * PI) if q[0] > 0 else (q[0] + 2 * PI), q[1]) for q in qs[-nq:]]
         for q in qs:
             i = cs.raw(surf_line(sph, s, q), surf_ml(sph, s, q), {"kind": "surf", "spherical": sph, "point": q, "world": wj})
             plan.append(("surf", i, s, q, wj, affine, sph))
